@@ -751,7 +751,9 @@ func binary(p *Parser, left Expr) (Expr, error) {
 	}
 	opToken := *p.previous
 
-	expr, err := p.expressionWithPrec(p.rule(opToken.Tag).prec)
+	// parse the right operand one level tighter so binary operators are
+	// left-associative
+	expr, err := p.expressionWithPrec(p.rule(opToken.Tag).prec + 1)
 	if err != nil {
 		return nil, err
 	}
